@@ -208,3 +208,7 @@ def check(cx):
             cx.verdict(not users, r7, "no-lossy-equality-in-update", fav.where(), "no value equality in the version-writing path (%d functions)" % len(scope),
                        "%s compares values with `==` while building a new row version: distinct BIGINTs above 2^53 (or 0.0 / -0.0) compare equal, "
                        "so the assignment is dropped and every later reader decodes the old value" % ", ".join(users))
+
+    # ---- C18.8 (construct shared with C04.8) -------------------------------------------------------------------------
+    cx.include(c04, {"C04.8"}, "C18.8", "shared with C04.8: decision tables of Snapshot::is_committed_before_snapshot and is_transaction_aborted - "
+               "which version a reader decodes is decided by them", floor=2)
